@@ -5,6 +5,13 @@ from typing import get_args, get_origin
 
 from .utils import UnionTypes
 
+# Verification hook (guarded by OVLD_VERIF; inert otherwise): lets a harness choose the
+# iteration order at the set-iteration sites of the resolution code.
+import os as _os
+
+_VERIF = bool(_os.environ.get("OVLD_VERIF"))
+_verif_reorder = None
+
 
 class Order(Enum):
     LESS = -1
@@ -161,6 +168,8 @@ def sort_types(cls, avail):
     # We filter everything except subclasses and dependent types that *might* cover
     # the object represented by cls.
     avail = [t for t in avail if subclasscheck(cls, t)]
+    if _VERIF and _verif_reorder is not None:
+        avail = _verif_reorder("sort_types", avail)
     deps = {t: set() for t in avail}
     for i, t1 in enumerate(avail):
         for t2 in avail[i + 1 :]:
